@@ -1,21 +1,18 @@
 #!/bin/bash
-# tools/recheck_seed.sh <PID>-<k> ...: re-run ./check <PID> on a scratch copy of /repo with seeded/<PID>-<k>/patch.diff applied
-for S in "$@"; do
-  PID=${S%%-*}; OUT=/verif/seeded/$S
-  SC=$(mktemp -d /var/tmp/seedrepo.XXXXXX)
-  rsync -a --exclude .git --exclude docs --exclude readme_images /repo/ $SC/
-  ( cd $SC && patch -p1 -s < $OUT/patch.diff ) || { echo "$S PATCH DOES NOT APPLY"; rm -rf $SC; continue; }
-  ( cd /verif && PYVC_REPO=$SC ./check $PID > $OUT/check_patched.log 2>&1 ); CE=$?
-  rm -rf $SC
-  VL=$(grep -c "^VIOLATION" $OUT/check_patched.log)
-  NF=$(grep -c "no-failing-input-found" $OUT/check_patched.log)
-  python3 - <<PY
+# recheck.sh <PID> <K>: re-run ./check on a scratch copy with the filed patch
+PID=$1; K=$2; OUT=/verif/seeded/$PID-$K
+SC=$(mktemp -d /var/tmp/seedrepo.XXXXXX)
+rsync -a --exclude .git --exclude docs --exclude readme_images /repo/ $SC/
+( cd $SC && patch -p1 -s < $OUT/patch.diff )
+cd /verif; PYVC_REPO=$SC ./check $PID > $OUT/check_patched.log 2>&1; CE=$?
+rm -rf $SC
+VL=$(grep -c "^VIOLATION" $OUT/check_patched.log)
+python3 - <<PY
 import json
-p="$OUT/meta.json"; m=json.load(open(p)); m["check_exit_patched"]=$CE; m["violation_lines"]=$VL; m["caught"]=($CE==1)
-m["violations_without_failing_input"]=$NF
+p="$OUT/meta.json"; m=json.load(open(p))
+if not m.get("caught"):
+    m["first_run"]="missed by the check as it stood (exit %s)" % m.get("check_exit_patched")
+m["check_exit_patched"]=$CE; m["violation_lines"]=$VL; m["caught"]=($CE==1)
 json.dump(m,open(p,"w"),indent=1)
 PY
-  echo "$S check exit=$CE violations=$VL (without failing input: $NF)"
-  grep -E "^# " $OUT/check_patched.log | sort | uniq -c | sort -rn | head -3 | cut -c1-200
-done
-find /var/tmp/pyvc-scratch-evidence -mindepth 1 -maxdepth 1 -mmin +120 -exec rm -rf {} + 2>/dev/null
+echo "$PID-$K recheck exit=$CE violations=$VL"; grep -E "^#" $OUT/check_patched.log | head -2 | cut -c1-250
